@@ -1,8 +1,13 @@
-"""C02 part: mpn_dc_divappr_q (divide-and-conquer approximate quotient, mpn/generic/dc_divappr_q.c) — theorems for all sizes,
-every DC_DIV_QR_THRESHOLD T >= 6 and every SB_DIVAPPR_Q_CUTOFF C >= 3 about the value-level recursive model
-lean/Mpir/Model/DcDivappr.lean (MpirProofs/Props/C02_dcappr.lean), tied to the real function by the op
-dc_divappr_q_model (harness/ops_dcdivappr.c): quotient limbs, the three remainder limbs np[dn-2 .. dn] the call leaves, qh —
-compared verbatim.
+"""C02 part: mpn_dc_divappr_q (divide-and-conquer approximate quotient, mpn/generic/dc_divappr_q.c) — value-level recursive model
+lean/Mpir/Model/DcDivappr.lean tied to the real function by the op dc_divappr_q_model (harness/ops_dcdivappr.c): quotient limbs, the
+three remainder limbs np[dn-2 .. dn] the call leaves, qh — compared verbatim.
+
+FINDING (MpirProofs/Props/C02_dcappr.lean, findings/): the C of the pinned tree does NOT keep the contract "floor or floor+1": it returns
+floor+2 for dn = 87, nn = 173 and a quotient too large by about B^86 one recursion level higher, which makes mpz_tdiv_q / mpn_tdiv_q wrong.
+Theorems (kernel-checked on the executable model): dcDivappr_floor2_small / dcDivappr_floor2 / dcDivappr_far_off (model of the pinned C,
+parameter rep = false) and dcDivappr_repaired_examples (model of the repaired C, rep = true; findings/dc_divappr_q_fix.diff).  The op
+carries `rep` (read from the source under test: `while` at :105 and the sign test in the rare case) so that the model mirrors whichever
+C is compiled.  NOT proved: the positive contract of the repaired C for all sizes (differential only: 0/+1 on every generated input).
 
 Branches of dc_divappr_q.c and how the generator reaches them (recipes from the proof: the routine subtracts d_i*q_j only for
 i + j >= n - 1, so divisors with all-ones low limbs make the neglected part largest):
